@@ -637,6 +637,12 @@ func flexLayout(context *layoutContext, box_ Box, bottomSpace pr.Float, skipStac
 			newChild, tmp, _ := blockLevelLayoutSwitch(context, childCopy.(bo.BlockLevelBoxITF), -pr.Inf, childSkipStack,
 				parentBox, pageIsEmpty, absoluteBoxes, fixedBoxes, new([]pr.Float), false, -1)
 			adjoiningMargins := tmp.adjoiningMargins
+			if newChild == nil {
+				// nothing of the item can be rendered (e.g. a multi-column
+				// box skipping its content) : ignore it
+				childSkipStack = nil
+				continue
+			}
 			child.Baseline = pr.Float(0)
 			if bl := findInFlowBaseline(newChild, false); bl != nil {
 				child.Baseline = bl.V()
